@@ -19,6 +19,7 @@ from ..exceptions import GrammarError
 from ..input import Text
 from ..objectmodel import ModelBuilderSemantics, Node, nodedataclass
 from ..util import indent, trim, typename
+from ..util.regextools import regexlit
 from ..util.strtools import slicetowidth
 from ..util.undefined import UndefinedType
 from .math import ffset, kdot
@@ -725,10 +726,7 @@ class Grammar(Model):
             if name == 'whitespace' and not value:
                 directives += '@@whitespace :: None\n'
             elif name in regex_directives:
-                if '/' in value:
-                    directives += f'@@{name} :: ?"{value}"\n'
-                else:
-                    directives += f'@@{name} :: /{value}/\n'
+                directives += f'@@{name} :: {regexlit(value)}\n'
             elif name in string_directives:
                 directives += f'@@{name} :: {value!r}\n'
             else:
